@@ -92,6 +92,22 @@ TrChk ==
      /\ On("C18") => Ev.len = (IF st.nset = 0 THEN 24 ELSE 32 + st.cap \div 8)
   /\ UNCHANGED <<obj, gh>>
 
+\* C13: an image built by the harness from the specification's bit set, in the exact form and in the form
+\* whose bit count is the "dirty" marker 2^64 - 1 (the reader recounts): the filter it decodes to holds
+\* exactly these bits, answers as the original and writes the exact form again
+EncBFDirty(st, seed8) ==
+  LET e == EncBF(st, seed8) IN
+  IF st.nset = 0 THEN e ELSE [i \in 1..Len(e) |-> IF i >= 25 /\ i <= 32 THEN 255 ELSE e[i]]
+TrLoad ==
+  /\ IsEv("BLoad")
+  /\ LET st == obj[Ev.id]  seed8 == [i \in 1..8 |-> Ev.seed8[i]]  img == [i \in 1..Len(Ev.img) |-> Ev.img[i]] IN
+     /\ img = (IF Ev.dirty THEN EncBFDirty(st, seed8) ELSE EncBF(st, seed8))
+     /\ On("C13") => (/\ Ev.ok
+                      /\ {Ev.bits[i] : i \in 1..Len(Ev.bits)} = st.bits
+                      /\ Ev.used = st.nset
+                      /\ [i \in 1..Len(Ev.again) |-> Ev.again[i]] = EncBF(st, seed8))
+  /\ UNCHANGED <<obj, gh>>
+
 TrRT ==
   /\ IsEv("BRT")
   /\ obj' = Put(obj, Ev.to, obj[Ev.id])
@@ -101,7 +117,7 @@ TrRT ==
 TrPanic == IsEv("Panic") /\ FALSE /\ UNCHANGED <<obj, gh>>
 
 TNext == TrRun \/ TrNew \/ TrIns \/ TrCai \/ TrQ \/ TrUnion \/ TrInter \/ TrInvert \/ TrReset
-         \/ TrChk \/ TrRT \/ TrPanic
+         \/ TrChk \/ TrRT \/ TrLoad \/ TrPanic
 TSpec == TInit /\ [][TNext]_tvars
 
 Accepted ==
